@@ -1321,7 +1321,9 @@ class WorkflowConductor(object):
             rerunnable_candidates = {
                 constants.TASK_STATE_ROUTE_FORMAT % (t["id"], str(t["route"])): (i, t)
                 for i, t in self.workflow_state.get_terminal_tasks()
-                if "status" in t and t["status"] in statuses.ABENDED_STATUSES
+                if "status" in t
+                and t["status"] in statuses.ABENDED_STATUSES
+                and t["id"] not in events.ENGINE_EVENT_MAP.keys()
             }
         # Otherwise if the list of tasks is provided, then filter the list of rerun candidates.
         else:
